@@ -32,6 +32,10 @@ func runC20Lin(c *fw.Ctx, item *int64) {
 			c06Param{Engine: eng, Pre: pre, Close: closing, Threads: [][]bt.Op{{createU, {Kind: "DeleteTable", Table: tblU}}, {createU, put(tblU, "a", "f", "1")}}},
 			c06Param{Engine: eng, Pre: pre, Close: closing, Threads: [][]bt.Op{{mod(bt.Mod{ID: "g", Op: "drop"})}, {put(tblT, "a", "g", "w"), read(tblT)}}},
 			c06Param{Engine: eng, Pre: pre, Close: closing, Threads: [][]bt.Op{{mod(bt.Mod{ID: "g", Op: "drop"}, bt.Mod{ID: "g", Op: "create", GC: mv(1)})}, {put(tblT, "b", "g", "w")}}},
+			// a family disappears (and comes back) under a read-modify-write / check-and-mutate that names it
+			c06Param{Engine: eng, Pre: pre, Close: closing, Threads: [][]bt.Op{{mod(bt.Mod{ID: "g", Op: "drop"})}, {{Kind: "RMW", Table: tblT, Key: []byte("b"), Rules: []bt.Rule{{Fam: "g", Qual: []byte("c"), Append: []byte("+")}}}}}},
+			c06Param{Engine: eng, Pre: pre, Close: closing, Threads: [][]bt.Op{{mod(bt.Mod{ID: "g", Op: "drop"}), mod(bt.Mod{ID: "g", Op: "create"})}, {{Kind: "RMW", Table: tblT, Key: []byte("b"), Rules: []bt.Rule{{Fam: "f", Qual: []byte("n"), IsInc: true, Inc: 1}, {Fam: "g", Qual: []byte("n"), IsInc: true, Inc: 1}}}}}},
+			c06Param{Engine: eng, Pre: pre, Close: closing, Threads: [][]bt.Op{{mod(bt.Mod{ID: "g", Op: "drop"})}, {{Kind: "CheckAndMutate", Table: tblT, Key: []byte("b"), Pred: re("fam_re", "g"), TrueM: []bt.Mut{mset("g", "t", 1000, "T")}, FalseM: []bt.Mut{mset("f", "t", 1000, "F")}}}}},
 			c06Param{Engine: eng, Pre: pre, Close: closing, Threads: [][]bt.Op{{{Kind: "DropRowRange", Table: tblT, All: true}}, {put(tblT, "a", "f", "w"), read(tblT)}}},
 			c06Param{Engine: eng, Pre: pre, Close: closing, Threads: [][]bt.Op{{{Kind: "DropRowRange", Table: tblT, Prefix: []byte("a")}}, {put(tblT, "ab", "f", "w")}, {put(tblT, "a", "g", "w")}}},
 			c06Param{Engine: eng, Pre: pre, Close: closing, Threads: [][]bt.Op{{{Kind: "GetTable", Table: tblT}}, {mod(bt.Mod{ID: "h", Op: "create", GC: mv(2)})}, {mod(bt.Mod{ID: "g", Op: "drop"})}}},
